@@ -865,11 +865,28 @@ def execute(plan):
     elif k == 'corrupt':
         from sim import mutate, monitors
         from sim.props import c12
+        import random as _random
+        import struct as _struct
+        rr = _random.Random(plan['seed'])
+        variants = []
         for spec in tr['muts']:
             try:
-                bad = mutate.apply(raw, spec)
+                variants.append((spec, mutate.apply(raw, spec)))
             except Exception:
                 continue
+        # values that announce more bytes than are there, with every
+        # enclosing length left intact (so the frame is delivered whole):
+        # each byte / text string of the response in turn
+        leaves = [n for n in t.parse(raw).walk() if n.type in (7, 8)]
+        rr.shuffle(leaves)
+        for n in leaves[:6]:
+            ln = _struct.unpack_from('!I', raw, n.offset + 4)[0]
+            for new in (ln + 8, ln + 16, max(8, 2 * ln), 4096, ln + 1):
+                bad = bytearray(raw)
+                _struct.pack_into('!I', bad, n.offset + 4, new)
+                variants.append(({'kind': 'overrun_leaf', 'tag': hex(n.tag),
+                                  'from': ln, 'to': new}, bytes(bad)))
+        for spec, bad in variants:
             fr, left = monitors.split_frames(bad)
             if bad == raw or len(fr) != 1 or left:
                 continue
